@@ -694,6 +694,23 @@ impl<L: LenShape> Shape for FlatString<L> {
     unsafe fn emplace_val<'a>(v: &Value, bytes: &'a mut [u8], route: &Route) -> Result<&'a mut Self, Error> {
         let s = v.as_str();
         let r = route.next();
+        if r == 0xF3 {
+            // a source whose first as_ref() answers "" and every later one the text (AsRef is a safe trait: the
+            // emplacer may fail on it, but must not trust a check made on an earlier answer)
+            struct Flaky<'s>(&'s str, Cell<u32>);
+            impl AsRef<str> for Flaky<'_> {
+                fn as_ref(&self) -> &str {
+                    let k = self.1.get();
+                    self.1.set(k + 1);
+                    if k == 0 {
+                        ""
+                    } else {
+                        self.0
+                    }
+                }
+            }
+            return string::FromStr(Flaky(s, Cell::new(0))).emplace_unchecked(bytes);
+        }
         if s.is_empty() && r % 2 == 1 {
             return string::Empty.emplace_unchecked(bytes);
         }
@@ -855,6 +872,8 @@ pub trait Live {
     fn size(&self) -> usize;
     /// `other` must be a valid image of the same type (checked with from_bytes).
     fn eq_bytes(&self, other: &[u8]) -> Option<bool>;
+    /// the value compared with itself, and with a second view mapped from its own bytes
+    fn eq_self(&self) -> Option<(bool, bool)>;
     /// validate(as_bytes())
     fn revalidate(&self) -> Result<(), FErr>;
 }
@@ -893,6 +912,14 @@ impl<'a, T: Shape + ?Sized> Live for LiveRef<'a, T> {
     fn eq_bytes(&self, other: &[u8]) -> Option<bool> {
         let o = T::from_bytes(other).ok()?;
         self.x.eq_dyn(o)
+    }
+    fn eq_self(&self) -> Option<(bool, bool)> {
+        let a = self.x.eq_dyn(&*self.x)?;
+        // a second view of the very same memory
+        let bytes = self.x.as_bytes();
+        let view = unsafe { T::from_bytes_unchecked(std::slice::from_raw_parts(bytes.as_ptr(), bytes.len())) };
+        let b = self.x.eq_dyn(view)?;
+        Some((a, b))
     }
     fn revalidate(&self) -> Result<(), FErr> {
         T::validate(self.x.as_bytes()).map_err(FErr::from)
